@@ -28,6 +28,12 @@ theorem verdict : (classify Generated.factsC01).Sound (Holds (cfgOf Generated.fa
 #print axioms not_holds_of_noDelete
 #print axioms Hv.Storage.overflow_load_gen
 #print axioms not_holds_of_noCountFlush
+#print axioms Hv.Storage.zeroCounts_inv
+#print axioms stale_header_harmless
+#print axioms Hv.Storage.insert_update_equivalent
+#print axioms Hv.Storage.chronWrite_eq_runOps
+#print axioms not_holds_of_silentDrop
+#print axioms inserts_roundtrip
 #print axioms classify_sound
 
 end Hv.C01
